@@ -26,6 +26,7 @@ type Env struct {
 	oldTop T // allocation frontier of the old state (for fresh())
 	at     string
 	loopPre *State // state at loop entry (before havoc), for loopold()/loopfresh()
+	iterHead *State // state at the head of the current loop iteration (call-site assertions)
 	params  map[string]Val // entry values of the formals (visible when no local shadows them)
 }
 
@@ -713,6 +714,14 @@ func (e *Env) builtin(name string, x *ast.CallExpr) (Val, bool) {
 		n := *e
 		n.st = e.loopPre
 		return n.eval(arg(0)), true
+	case "iterold":
+		// value at the head of the current iteration of the enclosing loop
+		if e.iterHead == nil {
+			e.fail("iterold() outside a loop body call site")
+		}
+		n := *e
+		n.st = e.iterHead
+		return n.eval(arg(0)), true
 	case "loopfresh":
 		if e.loopPre == nil {
 			e.fail("loopfresh() outside a loop invariant")
@@ -806,7 +815,7 @@ func (e *Env) builtin(name string, x *ast.CallExpr) (Val, bool) {
 		mt := m.Typ.Underlying().(*types.Map)
 		e.c.declMsum()
 		v := sel(e.c.heapGet(e.st, mapValKey(mt, ""), arr(sInt, arr(sStr, sStr))), m.one())
-		e.c.sc.assume(eq(app("msum", constArray(arr(sStr, sBool), "false"), v), "0"))
+		e.c.sc.assume(eq(app("msum", e.c.constArr(arr(sStr, sBool), "false"), v), "0"))
 		return intVal(app("msum", e.st.iters[*e.rng], v)), true
 	case "witness":
 		// witness(i, lo, hi, P): some index in [lo,hi) satisfying P, or lo-1 when
@@ -857,9 +866,15 @@ type ModLoc struct {
 	Glob   bool
 	Leaf   Leaf
 	HasLeaf bool
+	// reference set: every element of a slice of references (x[*][*])
+	SetE, SetOff, SetLen T
+	Everything bool // `modifies everything`: no frame at all
 }
 
 func (e *Env) designator(x ast.Expr) []ModLoc {
+	if id, ok := x.(*ast.Ident); ok && id.Name == "everything" {
+		return []ModLoc{{Key: "*", Everything: true}}
+	}
 	switch x := x.(type) {
 	case *ast.ParenExpr:
 		return e.designator(x.X)
@@ -909,11 +924,32 @@ func (e *Env) designator(x ast.Expr) []ModLoc {
 		}
 		return out
 	case *ast.IndexExpr:
-		base := e.eval(x.X)
 		all := false
 		if id, ok := x.Index.(*ast.Ident); ok && id.Name == "ALL" {
 			all = true
 		}
+		// x[*][*]: contents of every map held in the slice x
+		if inner, ok := x.X.(*ast.IndexExpr); ok && all {
+			if id, ok := inner.Index.(*ast.Ident); ok && id.Name == "ALL" {
+				sv := e.eval(inner.X)
+				sl, ok := sv.Typ.Underlying().(*types.Slice)
+				if !ok {
+					e.fail("x[*][*] wants a slice of maps")
+				}
+				mt, ok := sl.Elem().Underlying().(*types.Map)
+				if !ok {
+					e.fail("x[*][*] wants a slice of maps")
+				}
+				E := e.c.sc.def("setE", arr(sInt, sInt), e.c.elemArray(e.st, sl.Elem(), 0, sv.L[0]))
+				ks := keySortOfMap(mt)
+				out := []ModLoc{{Key: mapDomKey(mt), Sort: arr(sInt, arr(ks, sBool)), SetE: E, SetOff: sv.L[1], SetLen: sv.L[2]}}
+				for _, l := range leavesOf(mt.Elem()) {
+					out = append(out, ModLoc{Key: mapValKey(mt, l.Suffix), Sort: arr(sInt, arr(ks, l.Sort)), SetE: E, SetOff: sv.L[1], SetLen: sv.L[2], Leaf: l, HasLeaf: true})
+				}
+				return out
+			}
+		}
+		base := e.eval(x.X)
 		switch u := base.Typ.Underlying().(type) {
 		case *types.Slice:
 			if isStructType(u.Elem()) {
